@@ -160,6 +160,44 @@ def body(chk, db, cfgname):
     else:
         r1.unknown(site, h.loc(), "fill_stack_: loop form not recognised and the body could not be interpreted (%s)" % fill_err, cfgname)
 
+    # ------------------------------------------------------------------ the delegating constructors: build a complete master, swap it in
+    # MPIMaster(comm, ntasks, include_boss) and MPIMaster(comm, tasks, include_boss) initialise Comm only, construct a fully
+    # initialised temporary and swap() it into *this.  A member that swap() leaves out stays uninitialised in every master that
+    # mpi_skel::run creates (Nprocs, the stacks, the request table ...).
+    site = M + "swap:every-member"
+    swp = db.fn(M + "swap", nparams=1)
+    with r1.guard(site, swp.loc(), cfgname):
+        sctx = Ctx(swp, db)
+        other = ("param", swp.params[0]["d"], swp.params[0]["n"])
+        swapped = set()
+        for j in swp.calls():
+            n_ = swp.nodes[j]
+            short_ = strip_targs(n_.get("cname") or "").split("::")[-1]
+            ks_ = []
+            if short_ == "swap" and n_.get("ck") == "func" and len(n_["args"]) == 2:
+                ks_ = [sctx.key(a_, inline=False) for a_ in n_["args"]]
+            elif short_ == "swap" and n_.get("ck") == "method" and n_.get("obj") is not None and len(n_["args"]) == 1:
+                ks_ = [sctx.key(n_["obj"], inline=False), sctx.key(n_["args"][0], inline=False)]
+            if len(ks_) == 2 and all(k_[0] == "field" and len(k_) == 3 for k_ in ks_) and ks_[0][1] == ks_[1][1] and {ks_[0][2], ks_[1][2]} == {("this",), other}:
+                swapped.add(ks_[0][1].split("::")[-1])
+        allf = [f_["n"] for f_ in db.records["pMPI::MPIMaster"]["fields"]]
+        deleg = [c_ for c_ in db.fns_named("pMPI::MPIMaster::MPIMaster") if c_.kind == "ctor" and c_.body is not None and c_.body >= 0 and
+                 any(strip_targs(c_.nodes[j].get("cname") or "") == "pMPI::MPIMaster::swap" for j in c_.calls())]
+        if not deleg:
+            raise AnalysisBroken("no constructor of MPIMaster delegates through swap()")
+        missing_ = {}
+        for c_ in deleg:
+            own = {i_.get("field") for i_ in c_.d.get("inits", []) if i_.get("field") and i_.get("written")}
+            miss = [f_ for f_ in allf if f_ not in swapped and f_ not in own]
+            if miss:
+                missing_[c_.sig] = miss
+        if not missing_:
+            r1.ok(site, swp.loc(), "swap() exchanges %d members; with the ones the delegating constructors initialise themselves that is every member of MPIMaster" % len(swapped), cfgname)
+        else:
+            sig_, miss = sorted(missing_.items())[0]
+            r1.bad(site, swp.loc(), "member(s) %s are neither exchanged by swap() nor initialised by the delegating constructor %s: they keep an indeterminate value in every master built from (communicator, tasks, include_boss)" % (
+                ", ".join(miss), sig_[:80]), cfgname)
+
     # ================================================================== R2
     r2 = chk.rule("C16-R2", "worker state machine: receive re-posted after every order, cancelled iff Finish; completion report resets the state; members initialised before the receive captures them", "F2 typestate", 5)
     f = db.fn(W + "receive_order", nparams=0)
